@@ -39,3 +39,51 @@ fn c06_o3_topk_candidate_total_order__witness() {
     kani::cover!(a.cmp(&b) == O::Less && a.distance != a.distance, "NaN item ordered");
     kani::cover!(a.cmp(&b) == O::Greater && a.distance == b.distance, "tie broken by id");
 }
+
+// ---- C06 O6.7: the distance the hot tier reports is the metric's definition (what the cold tier reports for the same
+// pair), not merely something inside a plausible range.  For a stored unit vector b (cached norm 1) and a query a with
+// cached norm 1 the similarity is r = <a,b>, and
+//   cosine / inner product:   distance == 1 - r        whenever -1 <= r <= 1
+//                              distance == 0 (r > 1),  2 (r < -1)      (the clamp only absorbs rounding excursions)
+// Dimension 2; the query lanes are symbolic (all f32 bit patterns), the partner is a concrete unit vector per row
+// (a fully symbolic pair with symbolic norms — two multiplier/divider circuits to be proved equal — timed out at 15 min).
+fn hot_distance_body(ip: bool, b: [f32; 2], witness: bool) {
+    let a: [f32; 2] = kani::any();
+    let d = if ip { HotTier::dot_distance_with_cached_norm(&a, 1.0, &b, 1.0) } else { HotTier::cosine_distance_with_cached_norm(&a, 1.0, &b, 1.0) };
+    let r = crate::simd::dot_f32(&a, &b); // / (1.0 * 1.0)
+    if witness {
+        kani::cover!(d.is_finite() && r < 0.0 && r > -1.0, "negative similarity inside the range");
+        kani::cover!(d.is_finite() && r > 1.0, "excursion above 1");
+        return;
+    }
+    if r >= -1.0 && r <= 1.0 {
+        assert!(d == 1.0 - r, "C06: hot-tier distance equals 1 - <a,b> for every similarity in [-1, 1]");
+        assert!(d >= 0.0 && d <= 2.0);
+    } else if r > 1.0 {
+        assert!(d == 0.0, "C06: similarity above 1 is reported as distance 0");
+    } else if r < -1.0 {
+        assert!(d == 2.0, "C06: similarity below -1 is reported as distance 2");
+    }
+}
+
+macro_rules! hot_distance_harness {
+    ($name:ident, $wname:ident, $ip:expr, $b:expr) => {
+        #[kani::proof]
+        #[kani::unwind(4)]
+        #[kani::stub(crate::simd::detect_best_f32_kernels, crate::simd::verif_proofs::scalar_table)]
+        fn $name() {
+            hot_distance_body($ip, $b, false);
+        }
+        #[kani::proof]
+        #[kani::unwind(4)]
+        #[kani::stub(crate::simd::detect_best_f32_kernels, crate::simd::verif_proofs::scalar_table)]
+        fn $wname() {
+            hot_distance_body($ip, $b, true);
+        }
+    };
+}
+
+hot_distance_harness!(c06_o7_hot_distance_cosine, c06_o7_hot_distance_cosine__witness, false, [1.0, 0.0]);
+hot_distance_harness!(c06_o7_hot_distance_inner_product, c06_o7_hot_distance_inner_product__witness, true, [1.0, 0.0]);
+hot_distance_harness!(c06_o7_hot_distance_cosine_b2, c06_o7_hot_distance_cosine_b2__witness, false, [0.6, 0.8]);
+hot_distance_harness!(c06_o7_hot_distance_inner_product_b2, c06_o7_hot_distance_inner_product_b2__witness, true, [0.6, 0.8]);
